@@ -569,7 +569,18 @@ fn rgen(rng: &mut Rng, n: usize, sc: &Scope, depth: usize) -> String {
             // destructuring
             let (i, j) = split2(rng);
             let (x, y) = (*rng.pick(&RV), *rng.pick(&RV));
-            let pat = match rng.below(5) {
+            let outer: String = if !sc.vars.is_empty() && rng.chance(2, 3) {
+                rng.pick(&sc.vars).to_string()
+            } else if let Some((f, _)) = sc.funs.iter().find(|(_, k)| k.is_empty()) {
+                f.to_string()
+            } else {
+                "\"a\", \"b\"".to_string()
+            };
+            let pat = match rng.below(9) {
+                5 => format!("{{a: {x}, b: {{({outer}): {y}}}}}"),
+                6 => format!("[{x}, {{({outer}): {y}}}]"),
+                7 => format!("{{b: [{x}, {{a: {y}, ({outer}): {x}}}]}}"),
+                8 => format!("{{{x}, (.a, {outer}): [{y}]}}"),
                 0 => format!("[{x}, {y}]"),
                 1 => format!("{{a: {x}, b: {y}}}"),
                 2 => format!("[{x}, [{y}]]"),
@@ -577,7 +588,7 @@ fn rgen(rng: &mut Rng, n: usize, sc: &Scope, depth: usize) -> String {
                 _ => format!("{{{x}, a: [{y}]}}"),
             };
             let sc2 = sc.with_var(x).with_var(y);
-            let sc2 = if pat.contains('(') { sc.with_var(x) } else { sc2 };
+            let sc2 = if pat.contains('(') && !pat.contains(y) { sc.with_var(x) } else { sc2 };
             format!("({} as {pat} | {})", rgen(rng, i, sc, d), rgen(rng, j, &sc2, d))
         }
         10 => format!("[{}]", rgen(rng, m, sc, d)),
@@ -683,6 +694,90 @@ fn rgen(rng: &mut Rng, n: usize, sc: &Scope, depth: usize) -> String {
     }
 }
 
+
+/// destructuring patterns of depth >= 2 with computed keys `(f)` that mention names bound OUTSIDE the
+/// pattern (`$k`, the filter argument `f`, `.`-relative keys), placed after earlier variable entries of
+/// the same pattern (some of which rebind `$k`), in `as`, `reduce`, `foreach` (2 and 3 arguments).
+/// Rule under test: every key filter, nested or not, runs in the context outside the whole pattern.
+fn pattern_programs(rng: &mut Rng, nrand: usize) -> Vec<String> {
+    const OBJ: &str = r#"{"k":"b","a":"c","b":"a","n":{"a":1,"b":2,"c":[3,{"a":4,"b":5}]}}"#;
+    const ARR: &str = r#"[["x"],{"a":1,"b":2,"c":{"a":6,"b":7}},"b"]"#;
+    let ents: Vec<(&str, Vec<&str>)> = vec![
+        ("k: $x", vec!["$x"]),
+        ("$a", vec!["$a"]),
+        ("b: $k", vec!["$k"]),
+        ("k: $k", vec!["$k"]),
+        ("n: {($k): $y}", vec!["$y"]),
+        ("n: {(f): $y}", vec!["$y"]),
+        ("n: {($k, f): $y}", vec!["$y"]),
+        ("n: {a: $y, ($k): $w}", vec!["$y", "$w"]),
+        ("n: {b: $k, ($k): $w}", vec!["$k", "$w"]),
+        ("($k): $z", vec!["$z"]),
+        ("(f): $z", vec!["$z"]),
+        ("(.b): $z", vec!["$z"]),
+        ("(.k, $k): $z", vec!["$z"]),
+        ("n: {c: [$p, {($k): $q}]}", vec!["$p", "$q"]),
+        ("n: {c: [$k, {($k): $q}]}", vec!["$k", "$q"]),
+        ("n: {c: [$p, {(f): $q, ($k): $r}]}", vec!["$p", "$q", "$r"]),
+        ("n: {(.c[1].b | if . == 5 then \"b\" else \"a\" end): $y}", vec!["$y"]),
+        ("n: {c: [$p, {a: $q, (\"a\", $k, f): $r}]}", vec!["$p", "$q", "$r"]),
+    ];
+    let arrs: Vec<(&str, Vec<&str>)> = vec![
+        ("[$p, {($k): $q}]", vec!["$p", "$q"]),
+        ("[$k, {($k): $q}, $r]", vec!["$k", "$q", "$r"]),
+        ("[$p, {(f): $q, ($k): $r}]", vec!["$p", "$q", "$r"]),
+        ("[[$p], {a: $q, c: {($k): $r}}]", vec!["$p", "$q", "$r"]),
+        ("[[$k], {c: {b: $q, ($k): $r}}, $s]", vec!["$k", "$q", "$r", "$s"]),
+        ("[$p, {c: {($k, f): $q}}]", vec!["$p", "$q"]),
+    ];
+    let mut pats: Vec<(String, Vec<&str>, &str)> = Vec::new();
+    for (i, (a, va)) in ents.iter().enumerate() {
+        for (j, (b, vb)) in ents.iter().enumerate() {
+            if i != j {
+                let mut vs = va.clone();
+                vs.extend(vb.iter());
+                pats.push((format!("{{{a}, {b}}}"), vs, OBJ));
+            }
+        }
+    }
+    for _ in 0..nrand {
+        let mut vs = Vec::new();
+        let mut es = Vec::new();
+        for _ in 0..3 {
+            let (a, va) = rng.pick(&ents);
+            es.push(*a);
+            vs.extend(va.iter().cloned());
+        }
+        pats.push((format!("{{{}}}", es.join(", ")), vs, OBJ));
+    }
+    for (a, va) in &arrs {
+        pats.push((a.to_string(), va.clone(), ARR));
+    }
+    let mut out = Vec::new();
+    for (n, (pat, vs, val)) in pats.iter().enumerate() {
+        let mut vars: Vec<&str> = vs.clone();
+        vars.sort();
+        vars.dedup();
+        if !vars.contains(&"$k") {
+            vars.push("$k");
+        }
+        let body = format!("[{}]", vars.join(", "));
+        let binds = [
+            format!("{val} as {pat} | {body}"),
+            format!("reduce ({val}) as {pat} (0; {body})"),
+            format!("foreach ({val}, {val}) as {pat} (0; . + 1; [., {body}])"),
+            format!("foreach ({val}) as {pat} (0; {body})"),
+        ];
+        // all four binder forms for a part of the stream, one (rotating) for the rest
+        for (b, bind) in binds.iter().enumerate() {
+            if n % 5 == 0 || b == n % 4 {
+                out.push(format!("\"a\" as $k | def g(f): {bind}; g(\"b\")"));
+            }
+        }
+    }
+    out
+}
+
 /// programs of the manual: every `code --> outputs` span of docs/*.dj
 fn manual_examples() -> Vec<String> {
     let mut out = Vec::new();
@@ -783,6 +878,14 @@ pub fn gen(args: &[String]) {
             emit(&mut id, "rnd", &code, &ins[i..i + 1]);
         }
     }
+    if what == "all" || what == "pat" {
+        let nrand = if tier == "thorough" { 1500 } else { 150 };
+        let ps = pattern_programs(&mut rng, nrand);
+        eprintln!("c01 gen: {} destructuring programs", ps.len());
+        for p in &ps {
+            emit(&mut id, "pat", p, &ins[..1]);
+        }
+    }
     if what == "all" || what == "manual" {
         let ex = manual_examples();
         eprintln!("c01 gen: {} manual examples", ex.len());
@@ -839,7 +942,7 @@ pub fn main(args: &[String]) {
             }
         }
         _ => {
-            eprintln!("usage: jaqverif c01 prelude|gen [exh|rand|manual]|run|table|sexpr");
+            eprintln!("usage: jaqverif c01 prelude|gen [exh|rand|pat|manual]|run|table|sexpr");
             std::process::exit(2)
         }
     }
